@@ -19,6 +19,7 @@ import (
 	"fmt"
 	"math/big"
 	"testing"
+	"time"
 
 	"pgregory.net/rapid"
 	h "verifh"
@@ -26,6 +27,9 @@ import (
 
 	"github.com/oasisprotocol/curve25519-voi/curve/scalar"
 )
+
+// c16EqWatchdog bounds one triple multiplication (normally ~100 microseconds).
+const c16EqWatchdog = 60 * time.Second
 
 type c16EqCase struct {
 	A     h.PointSpec // A = [A.A]B + T[A.J]
@@ -180,8 +184,30 @@ func c16CheckEq(c c16EqCase) h.Result {
 	}
 
 	var res EdwardsPoint
-	// 1. public entry points (dispatch to vector or generic code)
-	judge("EdwardsPoint.TripleScalarMulBasepointVartime", res.TripleScalarMulBasepointVartime(a, A, b, C))
+	// 1. public entry points (dispatch to vector or generic code).  The first
+	// call runs under a watchdog: the embedded lattice reduction is the only
+	// unbounded loop, it depends on `a` alone, so if this call returns the
+	// later ones (same a) do too.
+	done := make(chan struct{})
+	var pnc interface{} // a panic in the goroutine is re-raised on the checking goroutine (reported by the wrapper)
+	go func() {
+		defer func() {
+			pnc = recover()
+			close(done)
+		}()
+		res.TripleScalarMulBasepointVartime(a, A, b, C)
+	}()
+	wd := time.NewTimer(c16EqWatchdog)
+	select {
+	case <-done:
+		wd.Stop()
+	case <-wd.C:
+		return r.Fail("EdwardsPoint.TripleScalarMulBasepointVartime:does-not-terminate", "a=%x A=%x b=%x C=%x (no result after %v)", []byte(c.Sa), encA, []byte(c.Sb), encC, c16EqWatchdog).Result()
+	}
+	if pnc != nil {
+		panic(pnc)
+	}
+	judge("EdwardsPoint.TripleScalarMulBasepointVartime", &res)
 	unchanged("EdwardsPoint.TripleScalarMulBasepointVartime")
 	expA := NewExpandedEdwardsPoint(A)
 	res = EdwardsPoint{}
